@@ -24,7 +24,7 @@ ASSUMPTIONS = [
     "body bytes are compared as a whole (re-chunking by a middleware is not a difference); for raising applications only the exception class is compared",
 ]
 
-DEPTH = {"quick": 3, "thorough": 3}
+DEPTH = {"quick": 3, "thorough": 4}
 
 
 # ------------------------------------------------------------------ inner applications
